@@ -81,6 +81,14 @@ Section SpecFacts.
     o_while ev body c l (S j) st = OR (OReturn v) s2.
   Proof. intros H1 H2. cbn [o_while]. rewrite H1. cbn [ebind]. rewrite H2. reflexivity. Qed.
 
+  (* a pass that ends normally or with 继续循环 is followed by the pass over the NEXT pair of the list computed when the loop
+     started: index and element stay paired whatever the earlier passes did *)
+  Lemma o_iter_next_pair body names key item tl st s2 :
+    (exists v, ebind (bind_loop_vars names key item st) (fun _ sa => body sa) = OR (ONormal v) s2) \/
+    ebind (bind_loop_vars names key item st) (fun _ sa => body sa) = OR OContinue s2 ->
+    o_iter body names ((key, item) :: tl) st = o_iter body names tl s2.
+  Proof. intros [[v H]|H]; cbn [o_iter]; rewrite H; reflexivity. Qed.
+
   Lemma o_iter_return body names key item tl st v s2 :
     ebind (bind_loop_vars names key item st) (fun _ sa => body sa) = OR (OReturn v) s2 ->
     o_iter body names ((key, item) :: tl) st = OR (OReturn v) s2.
@@ -172,7 +180,7 @@ Qed.
 
 Theorem expr_error_keeps_callers n st e er s1 :
   wf st -> eval_expr n st e = Er er s1 ->
-  (exists extra f f' tl, stack st = f :: tl /\ stack s1 = extra ++ f' :: tl /\ frame_sim f' f) /\
+  (exists extra, stack s1 = extra ++ stack st) /\
   depth s1 = depth st /\ no_sig er.
 Proof.
   intros W H. pose proof (eval_expr_balanced n st e W) as B. rewrite H in B.
